@@ -47,7 +47,11 @@ RULE = ('scenarios on the virtual-time loop with the real NDNApp (v2 with the re
         'connection 0-8 concurrent register/unregister calls issued at one clock reading (before or after '
         'auto-registration), each command answered by ControlResponse (status 200/4xx/5xx/absent, with or without '
         'body, valid or broken DigestSha256), undecodable Content, Nack, or silence, after 0-3 ms; clock granularity '
-        '1/4/16 ms and 0-2 ms ticks between the guard read, the signed read and the re-read; plus ControlResponse '
+        '1/4/16 ms and 0-2 ms ticks between the guard read, the signed read and the re-read; hardening: up to 16 '
+        'concurrent calls, non-local face (/localhop), route() with validator / raw-packet options, status-200 bodies '
+        'naming another prefix or present-but-empty, answers arriving 20 ms - 3 s after the command lifetime, the clock '
+        'set back 1-4 ms between two commands (oracle only), routes declared while a connection is up and between two '
+        'connections; plus ControlResponse '
         'values with random status/text/body fields for parse_response; plus a byte-level stream: verb, local/non-local '
         'face, prefix (text prefixes and random typed components, lengths around 253), 0-15 further ControlParameters '
         'keywords (integers at width boundaries, non-ASCII text, strategy names; rarely an integer that does not fit), '
@@ -81,16 +85,23 @@ def _reply(rng):
     r = rng.random()
     delay = rng.choice([0, 0, 0, 1, 1, 2, 3])
     if r < 0.40:
-        return {'k': 'status', 'code': 200, 'body': rng.random() < 0.85, 'text': 'OK', 'sig': rng.random() < 0.93,
-                'delay': delay}
+        body = rng.random() < 0.85
+        if body and rng.random() < 0.25:
+            # status 200 with a body that names another prefix / a present but empty body: still "status 200"
+            body = rng.choice(['other', 'other', 'empty'])
+        return {'k': 'status', 'code': 200, 'body': body, 'text': rng.choice(['OK', 'OK', 'OK', '', None]),
+                'sig': rng.random() < 0.93, 'delay': delay}
     if r < 0.68:
         code = rng.choice([400, 403, 403, 404, 404, 409, 500, 501, 504, 0, 199, 201, 2 ** 32 + 200, None])
         return {'k': 'status', 'code': code, 'body': rng.random() < 0.45,
                 'text': rng.choice(['no', 'Unauthorized', '', None]), 'sig': rng.random() < 0.93, 'delay': delay}
     if r < 0.80:
         return {'k': 'nack', 'reason': rng.choice([50, 100, 150, 0, 7]), 'delay': delay}
-    if r < 0.90:
+    if r < 0.87:
         return {'k': 'timeout'}
+    if r < 0.90:
+        # silence for the whole lifetime, then the answer arrives after all (late by 20 ms .. 3 s)
+        return {'k': 'late', 'code': rng.choice([200, 200, 403]), 'after': rng.choice([20, 500, 3000])}
     g = rng.choice([None, '', '010203', '6505', '650166', '66020190', '6503660190ff', '0a0b' * 6,
                     bytes(rng.randrange(256) for _ in range(rng.randint(1, 10))).hex()])
     return {'k': 'garbage', 'hex': g, 'sig': rng.random() < 0.9, 'delay': delay}
@@ -128,7 +139,7 @@ def _sm_case(rng, big):
     routes = rng.sample([6, 7, 8], nroutes)
     conns = []
     for _ in range(rng.choice([1, 1, 1, 2])):
-        ncalls = rng.choice([0, 1, 1, 2, 3, 4, 6, 8] if big else [0, 1, 2, 3, 5, 8])
+        ncalls = rng.choice([0, 1, 1, 2, 3, 4, 6, 8, 11, 16] if big else [0, 1, 2, 3, 5, 8, 12])
         calls = [[rng.choice(['r', 'r', 'u']), rng.randrange(6)] for _ in range(ncalls)]
         conns.append({'calls': calls, 'early': rng.random() < 0.4})
     total = sum(len(c['calls']) for c in conns) + len(routes) * len(conns)
@@ -136,8 +147,18 @@ def _sm_case(rng, big):
     gran = rng.choice([1, 1, 1, 1, 1, 4, 16])
     sign = [rng.choice([0, 0, 0, 0, 1, 1, 2]) for _ in range(total)] if rng.random() < 0.5 else []
     post = [rng.choice([0, 0, 0, 1]) for _ in range(total)] if rng.random() < 0.3 else []
-    return {'mode': 'sm', 'fe': fe, 'routes': routes, 'conns': conns, 'replies': replies,
+    case = {'mode': 'sm', 'fe': fe, 'routes': routes, 'conns': conns, 'replies': replies,
             'clock': {'gran': gran, 'sign': sign, 'post': post}}
+    # dimensions added by hardening (absent keys = the old behaviour, so old replays stay valid)
+    if rng.random() < 0.15:
+        case['local'] = False                   # a non-local face: commands go to /localhop/nfd
+    if routes and rng.random() < 0.4:
+        # route(name, validator[, need_raw_packet, need_sig_ptrs]) instead of the bare decorator
+        case['route_opts'] = [[rng.random() < 0.7, rng.random() < 0.3, rng.random() < 0.3] for _ in routes]
+    if gran == 1 and total >= 2 and rng.random() < 0.12:
+        # the clock is set back by a few ms between two commands (the guard loop can wait that out)
+        case['clock']['back'] = [rng.choice([0, 1, 2, 4]) for _ in range(total)]
+    return case
 
 
 def _by_fields(rng):
@@ -273,7 +294,8 @@ def shrink(case):
     for i, r in enumerate(reps):
         if r != ok:
             if r['k'] == 'status':
-                for r2 in (dict(r, delay=0), dict(r, sig=True), dict(r, text='no'), dict(r, body=True)):
+                for r2 in (dict(r, delay=0), dict(r, sig=True), dict(r, text='no'), dict(r, body=bool(r['body'])),
+                           dict(r, body=True)):
                     if r2 != r:
                         yield dict(case, replies=reps[:i] + [r2] + reps[i + 1:])
             if r['k'] == 'garbage':
@@ -282,6 +304,11 @@ def shrink(case):
                     yield dict(case, replies=reps[:i] + [r2] + reps[i + 1:])
             yield dict(case, replies=reps[:i] + [ok] + reps[i + 1:])
     ck = case['clock']
+    for key in ('local', 'route_opts'):
+        if key in case:
+            yield {k: v for k, v in case.items() if k != key}
+    if ck.get('back'):
+        yield dict(case, clock={k: v for k, v in ck.items() if k != 'back'})
     if ck['gran'] != 1:
         yield dict(case, clock=dict(ck, gran=1))
     for key in ('post', 'sign'):
@@ -307,9 +334,11 @@ class _Clock:
     def __init__(self, loop, spec):
         self.loop, self.gran = loop, spec['gran']
         self.sign, self.post = list(spec['sign']), list(spec['post'])
+        self.back = list(spec.get('back') or [])
         self.off = 0
         self.reads = []
-        self.nsign = self.npost = 0
+        self.nsign = self.npost = self.nback = 0
+        self.after_post = False
 
     def ms(self):
         return (round(self.loop.time() * 1000) + self.off) // self.gran * self.gran
@@ -326,6 +355,13 @@ class _Clock:
             if self.npost < len(self.post):
                 self.off += self.post[self.npost]
             self.npost += 1
+            self.after_post = True
+        elif self.after_post:
+            # the first read of the next command's guard: the clock may have been set back meanwhile
+            self.after_post = False
+            if self.nback < len(self.back):
+                self.off -= self.back[self.nback]
+            self.nback += 1
         v = self.ms()
         self.reads.append((label, v))
         return v
@@ -629,19 +665,26 @@ def run_impl(case):
 
     MemFace = apphelp.make_face_class()
 
+    is_local = case.get('local', True)
+    # the front-end derives the waiting time from two clock readings: it can end early by one clock step
+    slack = 5 + case['clock']['gran']
+
     class Face(MemFace):
         def __init__(self):
             super().__init__()
             self.running = False
 
+        def isLocalFace(self):
+            return is_local
+
         def send(self, data):
             wire = bytes(data)
             self.sent.append(wire)
-            d, name = _decode_command(fe, wire, prefix_names)
+            d, name = _decode_command(fe, wire, prefix_names, is_local)
             d['at'] = round(loop.time() * 1000)
             d['wire'], d['name'] = wire, name
             d['outstanding'] = sum(1 for c in cmds if not c.get('closed')
-                                   and not ('deadline' in c and c['deadline'] - 5 <= d['at']))
+                                   and not ('deadline' in c and c['deadline'] - slack <= d['at']))
             cmds.append(d)
             log.append(['C', len(cmds) - 1])
 
@@ -674,14 +717,24 @@ def run_impl(case):
         wrap('register', 'r')
         wrap('unregister', 'u')
 
-        for p in case['routes']:
-            app.route(PREFIXES[p])(lambda *a, **k: None)
+        async def _pass(*a, **k):
+            return types.ValidResult.PASS
+        for ri, p in enumerate(case['routes']):
+            opts = case['route_opts'][ri] if 'route_opts' in case else None
+            if opts is None:
+                app.route(PREFIXES[p])(lambda *a, **k: None)
+            elif fe == 'v2':
+                app.route(PREFIXES[p], validator=_pass if opts[0] else None)(lambda *a, **k: None)
+            else:
+                app.route(PREFIXES[p], validator=_pass if opts[0] else None, need_raw_packet=opts[1],
+                          need_sig_ptrs=opts[2])(lambda *a, **k: None)
 
         events = []        # what happened, in the model's vocabulary
         causes = {}        # call id -> list of reply kinds that can have ended it
         replies = list(case['replies'])
         default = {'k': 'status', 'code': 200, 'body': True, 'text': 'OK', 'sig': True, 'delay': 0}
         pending = []       # [due ms, cmd index, spec]
+        late_q = []        # [due ms, cmd index, spec]: answers that arrive after the command's lifetime is over
         handled = [0]
         seen_log = [0]
 
@@ -697,8 +750,11 @@ def run_impl(case):
                 handled[0] += 1
                 spec = replies.pop(0) if replies else dict(default)
                 cmds[i]['spec'] = spec
-                if spec['k'] == 'timeout' or cmds[i]['name'] is None:
-                    cmds[i]['deadline'] = cmds[i]['at'] + LIFETIME_MS
+                if spec['k'] in ('timeout', 'late') or cmds[i]['name'] is None:
+                    life = cmds[i].get('lifetime') or LIFETIME_MS      # the InterestLifetime the command carries
+                    cmds[i]['deadline'] = cmds[i]['at'] + life
+                    if spec['k'] == 'late' and cmds[i]['name'] is not None:
+                        late_q.append([cmds[i]['at'] + life + spec['after'], i, spec])
                 else:
                     pending.append([cmds[i]['at'] + spec['delay'], i, spec])
 
@@ -709,8 +765,11 @@ def run_impl(case):
                 kind, typ = ['n'], 0x64
             else:
                 if spec['k'] == 'status':
+                    bp = c['pfx'] or 0
+                    if spec['body'] == 'other':
+                        bp = (bp + 1) % len(PREFIXES)
                     content = _make_response(nfd_mgmt, enc, spec['code'], spec['text'],
-                                             {'name': PREFIXES[c['pfx'] or 0]} if spec['body'] else None)
+                                             {} if spec['body'] == 'empty' else {'name': PREFIXES[bp]} if spec['body'] else None)
                 else:
                     content = None if spec['hex'] is None else bytes.fromhex(spec['hex'])
                 wire = bytearray(enc.make_data(c['name'], enc.MetaInfo(), content, signer=sec.DigestSha256Signer()))
@@ -726,6 +785,17 @@ def run_impl(case):
             loop.create_task(face.callback(typ, wire))
             loop.settle()
             note_rets([kind])
+
+        def deliver_late(i, spec):
+            # the answer to a command whose lifetime ended some time ago: nobody is waiting for it any more
+            c = cmds[i]
+            content = _make_response(nfd_mgmt, enc, spec['code'], 'OK', {'name': PREFIXES[c['pfx'] or 0]})
+            wire = bytes(enc.make_data(c['name'], enc.MetaInfo(), content, signer=sec.DigestSha256Signer()))
+            c['late_delivered'] = True
+            note_rets(None)
+            loop.create_task(face.callback(0x06, wire))
+            loop.settle()
+            note_rets([['late']])
 
         def tasks_done(ts):
             return all(t.done() for t in ts)
@@ -747,7 +817,7 @@ def run_impl(case):
                 if any(e[0] == 'ret' for e in log[seen_log[0]:]):
                     # somebody returned although nothing was delivered: a lifetime that ended a little early
                     # (the clock ticked between the two reads the front-end derives it from), or a real defect
-                    late = [c for c in cmds if not c.get('closed') and 'deadline' in c and c['deadline'] - 5 <= now]
+                    late = [c for c in cmds if not c.get('closed') and 'deadline' in c and c['deadline'] - slack <= now]
                     for c in late:
                         c['closed'] = True
                         c['reply'] = ['t']
@@ -759,14 +829,19 @@ def run_impl(case):
                     pending.remove(due[0])
                     deliver(due[0][1], due[0][2])
                     continue
+                due = sorted(p for p in late_q if p[0] <= now and cmds[p[1]].get('closed'))
+                if due:
+                    late_q.remove(due[0])
+                    deliver_late(due[0][1], due[0][2])
+                    continue
                 nt = loop._next_timer()
-                if tasks_done(ts) and not pending and all(c.get('closed') for c in cmds):
+                if tasks_done(ts) and not pending and not late_q and all(c.get('closed') for c in cmds):
                     if nt is not None and nt <= loop.time() + 0.05:
                         loop.advance(nt)      # somebody sleeps in the guard loop
                         continue
                     return True
-                nxt = [p[0] / 1000.0 for p in pending] + [c['deadline'] / 1000.0 for c in cmds
-                                                          if not c.get('closed') and 'deadline' in c]
+                nxt = [p[0] / 1000.0 for p in pending + late_q] + [c['deadline'] / 1000.0 for c in cmds
+                                                                 if not c.get('closed') and 'deadline' in c]
                 if nt is not None and nt < loop.time() + 5:
                     nxt.append(nt)
                 if not nxt:
@@ -825,7 +900,7 @@ def run_impl(case):
                     t.exception()     # mark retrieved
         res.update({
             't0': t0, 'events': events, 'log': log, 'conn_marks': conn_marks,
-            'cmds': [{k: c.get(k) for k in ('verb', 'pfx', 'ts', 'fmt', 'at', 'outstanding', 'reply', 'lifetime')}
+            'cmds': [{k: c.get(k) for k in ('verb', 'pfx', 'ts', 'fmt', 'at', 'outstanding', 'reply', 'lifetime', 'late_delivered')}
                      for c in cmds],
             'causes': [[k, v] for k, v in sorted(causes.items())],
             'reads': [list(r) for r in clock.reads],
@@ -1159,6 +1234,9 @@ def oracle(case, impl):
         kind = kinds[0]
         if kind[0] == 'x':
             continue
+        if kind[0] == 'late':
+            return (f'{op} returned {r} when an answer arrived that belongs to a command whose lifetime had ended '
+                    f'(each call has exactly one command and is decided by the answer to that command)')
         want = _answers_200(fe, kind)
         if kind[0] == 'g':
             if r is True:
@@ -1240,6 +1318,21 @@ def tags(case, impl):
     for m in impl.get('main', []):
         if m:
             t.append('main_loop-raised:' + m)
+    if case.get('local') is False:
+        t.append('non-local-face')
+    if 'route_opts' in case:
+        t.append('route-with-validator/options')
+    if any(case['clock'].get('back') or []):
+        t.append('clock-set-back')
+        if st is None:
+            t.append('clock-set-back-observed')
+    for c in impl['cmds']:
+        if c.get('late_delivered'):
+            t.append('answer-after-lifetime')
+    if any(r.get('body') == 'other' for r in case['replies']):
+        t.append('body-names-other-prefix')
+    if any(r.get('body') == 'empty' for r in case['replies']):
+        t.append('body-present-but-empty')
     for c in case['conns']:
         t.append('calls:%d%s' % (len(c['calls']), '-early' if c['early'] and c['calls'] else ''))
     return t
